@@ -2,7 +2,7 @@
 import re
 
 from . import panics, scopes
-from ..mir import short
+from ..mir import short, op_base, op_place
 
 EXPLANATION = (
     "Rule P over every function reachable from any task the proxy spawns (accept loops, handshakes, process_request, "
@@ -10,7 +10,7 @@ EXPLANATION = (
     "panic/unreachable/assert, unwrap/expect, MIR Assert for bounds/div-zero/overflow, panicking library APIs by class) must be "
     "discharged by a guard the checker re-derives on every run (dominating is_some/match, constant ranges, byte-budget dataflow over "
     "decoders, tokio::select! branch analysis) or by a reasoned table entry whose anchor is re-checked; anything else is a finding. "
-    "String slices additionally need character-boundary bounds. Plus U1 (unbounded accumulation primitives on peer streams) and REC (recursion SCCs). Decides the absence of these structural panic/wedge "
+    "String slices additionally need character-boundary bounds. MAP-GUARD: no mutating call on a concurrent map is reachable from a get() of the same map without releasing the guard. Plus U1 (unbounded accumulation primitives on peer streams) and REC (recursion SCCs). Decides the absence of these structural panic/wedge "
     "sources, not the behaviour of dependencies.")
 RULE_TEXT = "instances = panic edges in scope + wedge sites; non-trivial = edges that needed a guard, budget or table argument"
 TRUSTED = ["rustc MIR construction and type checking", "dependency crates do not panic on valid arguments",
@@ -27,7 +27,75 @@ UNBOUNDED_READS = re.compile(r"^tokio::io::util::async_buf_read_ext::AsyncBufRea
                              r"^tokio::io::util::async_read_ext::AsyncReadExt::(read_to_end|read_to_string)$")
 
 
+
+def rule_map_guard(chk, prog, rule="MAP-GUARD"):
+    """A guard obtained from the concurrent session map (`CHashMap::get` -> ReadGuard on one bucket) is released before the same task
+    asks the map for a write on it (`remove` / `insert` / `alter` / `retain` / `clear`): the write waits for the bucket's lock, which
+    the task itself still holds - it never wakes up again, and with it the one dispatcher that serves every session of the connection.
+    From each `get`, no mutating call on the same map is reachable without passing a drop of the guard."""
+    from ..flow import awaited, flow_forward
+    from .panics import resolve_place, pretty_sig
+    n = 0
+    for f in sorted(prog.fns.values(), key=lambda x: x.key):
+        if f.crate != "redproxy_rs":
+            continue
+        gets = [c for c in f.calls if re.search(r"chashmap_async::CHashMap::<K, V, S>::(get|get_mut)$", c.path or "")]
+        muts = [c for c in f.calls if re.search(r"chashmap_async::CHashMap::<K, V, S>::(remove|insert|insert_new|alter|upsert|retain|clear)$", c.path or "")]
+        if not gets or not muts:
+            continue
+        for g_ in gets:
+            aw = awaited(f, g_)
+            res = aw["result"] if aw and aw.get("result") is not None else None
+            if res is None:
+                continue
+            n += 1
+            held = set(flow_forward(f, [res], [r"Option::<T>::(unwrap|expect|as_ref|as_mut)$"])[0]) | {res}
+            moved = set()          # temporaries the guard was moved out of: dropping them afterwards releases nothing
+            for b in f.reachable:
+                for st in f.stmts(b):
+                    if st["k"] == "assign" and len(st["lhs"]) == 1 and st["rv"]["k"] == "use":
+                        pl = op_place(st["rv"]["a"])
+                        if pl and pl[0] in held:
+                            held.add(st["lhs"][0])
+                            if "m" in st["rv"]["a"]:
+                                moved.add(pl[0])
+            drops = set()
+            for b in f.reachable:
+                t = f.term(b)
+                if t and t["k"] == "drop" and t.get("p") and t["p"][0] in held and t["p"][0] not in moved:
+                    drops.add(b)
+                if t and t["k"] == "call":
+                    c_ = f.call_at(b)
+                    if re.search(r"core::mem::drop$", c_.path or "") and c_.args and op_base(c_.args[0]) in held:
+                        drops.add(b)
+                    elif not re.search(r"Option::<T>::(unwrap|expect|as_ref|as_mut)$", c_.path or "") and \
+                            any("m" in a and len(a["m"]) == 1 and a["m"][0] in held and a["m"][0] not in moved
+                                and not f.local_ty_s(a["m"][0]).startswith("&") for a in c_.args):
+                        drops.add(b)          # handed over by value (`.map(|g| g.to_owned())`): the callee lets go of it
+            msig = pretty_sig(resolve_place(f, op_base(g_.args[0]))[0] or "")
+            # only the Some side holds a guard: start from the edges on which the lookup is known to have found the entry
+            from ..flow import option_tests
+            some_edges = [o["pos"][1] for o in option_tests(f, held) if o["kind"] in ("Option", "?")]
+            if some_edges:
+                live = f.reach_from(some_edges, avoid=list(drops))
+            else:
+                start = aw["poll"].bb if aw.get("poll") is not None else g_.bb
+                live = f.reach_from(f.succ[start], avoid=list(drops))
+            bad = [m for m in muts if m.bb in live and pretty_sig(resolve_place(f, op_base(m.args[0]))[0] or "") == msig and m.bb != g_.bb]
+            ok = not bad
+            chk.instance(rule, g_.where(), "%s: the guard from %s.get() is released before the map is written" % (f.path, msig), ok,
+                         "%d release point(s)" % len(drops))
+            for m in bad[:1]:
+                chk.finding(rule, f.key, short(m.path), msig, m.where(),
+                            "%s calls %s on %s while the guard it got from get() on the same map may still be alive: the task waits for a "
+                            "bucket lock it holds itself and never runs again (every session served by this task stalls for good)" % (f.path, short(m.path), msig))
+    if "quic" in prog.features:
+        chk.floor(rule, n, 1, "get() sites in functions that also write the map")
+
+
+
 def run(chk, prog):
+    rule_map_guard(chk, prog)
     roots, scope = scopes.network_scope(prog)
     chk.floor("P-roots", len(roots), 18 if "quic" in prog.features else 13, "spawned task roots")
     n = panics.evaluate_scope(chk, prog, scope, rule="P", crates=("redproxy_rs",),
